@@ -81,6 +81,9 @@ func devUnit(args []string) {
 				mark = "FAIL"
 			}
 			fmt.Printf("   %s %-8s %-10s %.2fs %s\n", mark, r.Res.Status, r.Res.Solver, r.Res.Seconds, r.Ob.Name)
+			if sel := os.Getenv("GOVC_DUMPALL"); sel != "" && strings.Contains(r.Ob.Name, sel) {
+				os.WriteFile("/tmp/ok.smt2", []byte(u.Script(r.Ob, len(r.Ob.Parts)-1)), 0o644)
+			}
 			if !r.OK {
 				fmt.Println("        src:", r.Ob.Src)
 				if dump {
